@@ -73,9 +73,11 @@ Proof. vm_compute. repeat split; reflexivity. Qed.
    not a valid URI authority, so a link-local server on it with differing ports still cannot be
    rendered: ares_get_servers_csv returns NULL and ares_dup fails *)
 Definition srv_alias : server :=
-  mkServer (A6 [254; 128; 0; 0; 0; 0; 0; 0; 0; 0; 0; 0; 0; 0; 0; 2]%N) 5353 53 (B "eth0:1") 3.
-Lemma witness_csv_unrenderable : get_servers_csv nf [srv_alias] = Err ARES_EBADNAME.
-Proof. vm_compute. reflexivity. Qed.
+  mkServer (A6 [254; 128; 0; 0; 0; 0; 0; 0; 0; 0; 0; 0; 0; 0; 0; 2]%N) 5353 53 (B "eth0:1") 7.
+Lemma witness_csv_unrenderable :
+  set_servers_csv nf (Some vif) 0 5353 0 [] (B "fe80::2%eth0:1") = Ok [srv_alias] /\
+  get_servers_csv nf [srv_alias] = Err ARES_EBADNAME.
+Proof. vm_compute. split; reflexivity. Qed.
 
 Definition srv_brlan : server :=
   mkServer (A6 [254; 128; 0; 0; 0; 0; 0; 0; 0; 0; 0; 0; 0; 0; 0; 2]%N) 5353 53 (B "br-lan") 3.
@@ -84,6 +86,15 @@ Lemma fixed_brlan_roundtrip :
   get_servers_csv nf [srv_brlan] = Ok (B "dns://[fe80::2%br-lan]:5353?tcpport=53") /\
   set_servers_csv nf (Some vif) 0 0 0 [] (B "dns://[fe80::2%br-lan]:5353?tcpport=53") = Ok [srv_brlan].
 Proof. vm_compute. repeat split; reflexivity. Qed.
+
+(* a server given through the binary API (ares_set_servers) in fec0::/10 is rendered, but the text
+   parser drops that range silently: the rendered list does not come back *)
+Definition srv_sitelocal : server :=
+  mkServer (A6 [254; 192; 0; 0; 0; 0; 0; 0; 0; 0; 0; 0; 0; 0; 0; 1]%N) 53 53 [] 0.
+Lemma witness_csv_sitelocal :
+  get_servers_csv nf [srv_sitelocal] = Ok (B "[fec0::1]:53") /\
+  set_servers_csv nf (Some vif) 0 0 0 [] (B "[fec0::1]:53") = Ok [].
+Proof. vm_compute. split; reflexivity. Qed.
 
 (* the dns:// form itself round-trips when the interface name is alphanumeric *)
 Definition srv_eth0 : server :=
